@@ -27,6 +27,19 @@ type planInfo struct {
 // each issue 20-50 calls drawn from a handful of related operations (what a stress test
 // does: sustained contention on the same few inputs), the others are ordinary plans.
 func genBurstPlan(r *rng, refs *refTable) (*Plan, planInfo) {
+	// one burst in 100: the SAME expensive call (one of the 2 % most expensive operations of
+	// the pool: the large inputs) issued twice by each of 3-4 tasks at once - what a
+	// size-triggered code path with shared state needs
+	if refs != nil && r.chance(1, 100) {
+		if h := refs.heavy(); len(h) > 0 {
+			k := pool.ops[h[r.intn(len(h))]]
+			p := &Plan{}
+			for t, n := 0, 3+r.intn(2); t < n; t++ {
+				p.Tasks = append(p.Tasks, TaskPlan{Ops: []OpPlan{{Key: k, Shared: -1, Fresh: t%2 == 1}, {Key: k, Shared: -1}}})
+			}
+			return p, planInfo{Contention: cSameCall, Hammer: true}
+		}
+	}
 	if !r.chance(1, 60) {
 		return genPlan(r, refs)
 	}
@@ -64,11 +77,15 @@ func hammerPlan(r *rng, refs *refTable, nTasks, minOps, spanOps int) (*Plan, pla
 		return nil, info, false
 	}
 	// a handful of operations, the expensive ones (large failing inputs) preferred
+	heavy := r.chance(1, 4)
+	if heavy {
+		minOps, spanOps = 3, 4
+	}
 	var set []opKey
 	for tries := 0; tries < 64 && len(set) < 4+r.intn(5); tries++ {
 		k := pool.ops[cand[r.intn(len(cand))]]
-		if n, ok := refs.steps(k); ok && (n < 3000 && tries < 40 || n > 150_000) {
-			continue // prefer the bigger (failing, multi-line) inputs, but not the huge ones
+		if n, ok := refs.steps(k); ok && (n < 3000 && tries < 40 || n > 150_000 && !heavy) {
+			continue // prefer the bigger (failing, multi-line) inputs; the huge ones only in a heavy hammer
 		}
 		set = append(set, k)
 	}
